@@ -368,6 +368,8 @@ class Fn:
                     p = s[1]
                     if isinstance(p, int):
                         D[p].append((b.idx, i, "assign"))
+                    elif p[1] and p[1][0][0] == "*":
+                        pass  # store through a pointer: not a definition of the pointer local
                     else:
                         D[p[0]].append((b.idx, i, "partial"))
                 elif s[0] == "setdiscr":
@@ -377,6 +379,8 @@ class Fn:
                 d = t[1]["dest"]
                 if isinstance(d, int):
                     D[d].append((b.idx, "t", "call"))
+                elif d[1] and d[1][0][0] == "*":
+                    pass
                 else:
                     D[d[0]].append((b.idx, "t", "partial"))
         self._defs = D
